@@ -484,6 +484,40 @@ pub fn zlib_stored(data: &[u8], block: usize) -> Vec<u8> {
     out
 }
 
+/// The two header bytes of a zlib stream (RFC 1950 §2.2): CM = 8, CINFO = log2(window) - 8 in
+/// 0..=7, FLEVEL 0..=3, FDICT = 0, FCHECK chosen so that CMF*256 + FLG is a multiple of 31.
+pub fn zlib_header(cinfo: u8, flevel: u8) -> [u8; 2] {
+    let cmf = ((cinfo & 7) << 4) | 8;
+    let mut flg = (flevel & 3) << 6;
+    let rem = (((cmf as u32) << 8) | flg as u32) % 31;
+    if rem != 0 {
+        flg += (31 - rem) as u8;
+    }
+    [cmf, flg]
+}
+
+/// `zlib_stored` with any legal header (a stored block refers to no window, so every window size
+/// is legal for it).
+pub fn zlib_stored_hdr(data: &[u8], block: usize, cinfo: u8, flevel: u8) -> Vec<u8> {
+    let mut out = zlib_stored(data, block);
+    out[..2].copy_from_slice(&zlib_header(cinfo, flevel));
+    out
+}
+
+/// xorshift64 (Marsaglia 13/7/17) byte generator: a fixed, practically incompressible family of
+/// inputs ("already compressed payload"); seed 0 is replaced by a fixed odd constant.
+pub fn xorshift_bytes(seed: u64, n: usize) -> Vec<u8> {
+    let mut s = if seed == 0 { 0x9E37_79B9_7F4A_7C15 } else { seed };
+    (0..n)
+        .map(|_| {
+            s ^= s << 13;
+            s ^= s >> 7;
+            s ^= s << 17;
+            (s >> 24) as u8
+        })
+        .collect()
+}
+
 /// Second Flate encoder: flate2 (miniz_oxide) at a given level 0..9. Trusted primitive.
 pub fn zlib_flate2(data: &[u8], level: u32) -> Vec<u8> {
     use std::io::Write;
@@ -613,6 +647,25 @@ pub fn self_test() -> Result<u64, String> {
         }
         n += 2 + 10 + 3 + 1;
     }
+    // zlib headers: every CINFO x FLEVEL gives a legal header; 78 01 / 78 9C / 78 DA are the usual ones
+    if zlib_header(7, 0) != [0x78, 0x01] || zlib_header(7, 2) != [0x78, 0x9c] || zlib_header(7, 3) != [0x78, 0xda] || zlib_header(0, 0) != [0x08, 0x1d] {
+        return Err("zlib header vectors".into());
+    }
+    for cinfo in 0..8u8 {
+        for fl in 0..4u8 {
+            let e = zlib_stored_hdr(b"abc", 65535, cinfo, fl);
+            if zlib_stored_decode(&e).as_deref() != Ok(&b"abc"[..]) || e[1] & 0x20 != 0 || e[0] >> 4 != cinfo || e[1] >> 6 != fl {
+                return Err(format!("zlib header cinfo {} flevel {}", cinfo, fl));
+            }
+            n += 1;
+        }
+    }
+    // xorshift data must be incompressible for the trusted encoder (that is what the family is for)
+    let x = xorshift_bytes(1, 100_000);
+    if zlib_flate2(&x, 9).len() <= x.len() || xorshift_bytes(1, 10) == xorshift_bytes(2, 10) {
+        return Err("xorshift data is compressible".into());
+    }
+    n += 1;
     // PNG: all filter types, several bpp, round trip + pointwise definition
     let data = lcg_bytes(3, 3 * 48, 0xff);
     for bpp in [1usize, 2, 3, 4, 6, 8] {
